@@ -664,7 +664,7 @@ fn main() {
 	let mut check = Check::from_args(
 		"C11",
 		"exploration",
-		"tiles from the harness's own MVT model/encoder (written from the MVT 2.1 layout, not the repository's code): 0-4 layers with distinct names, key/value tables as other encoders write them (duplicate and unused entries, tables before/after/interleaved with the features, defaults written or omitted), values of all seven kinds incl. int vs sint, i64::MIN, magnitudes >= 2^62, u64::MAX, infinities, -0.0, features with/without id (0, 2^63, 2^64-1), geometry types 0-3, opaque geometry words, extents and versions present/absent; plus fixed tiles whose layer has 66 000 distinct keys or 70 000 distinct values; never the same key twice in one feature, NaN only as the quiet NaN of its kind, never +0.0 and -0.0 of one float kind in one case. Phase roundtrip: VectorTile::from_blob -> to_blob, input and output decoded by the harness decoder must agree in layer order, extent, version and per feature id/type/geometry words/property map (tags resolved by table index as written; tables themselves are not compared). Phase update: 1-4 such tiles (>= 1 layer) in an in-memory source (none/gzip/brotli really applied) | vectortiles_update_properties with a generated CSV (unique canonical id cells from {0..6,-1,-2,a-d,'x y',1.5,-2.25,true}; other cells empty/bool/uint/int/double/strings incl. quotes, commas, newlines; quoting, CRLF, final newline varied), every combination of replace_properties/remove_non_matching/include_id written or omitted, layer present/absent, id field present/absent per feature; a feature matches the row whose id cell's canonical text equals the canonical text of the feature's id value (decimal integers, shortest float text, the string, true/false). Oracle on lookups and on the bbox stream (decoded with the declared compression): other layers equal; in the named layer extent/version kept, retained features keep id, type, geometry words and order, removed = exactly the features with an id value without row iff remove_non_matching, properties = row (without the id column unless include_id) when replacing, old + row (row wins) when merging, unchanged otherwise. Non-trivial (update) = a tile with >= 2 layers and >= 1 matched and >= 1 unmatched feature in the named layer; (roundtrip) = a layer with features whose tables hold duplicate or unused entries. Distinct = distinct case value.",
+		"tiles from the harness's own MVT model/encoder (written from the MVT 2.1 layout, not the repository's code): 0-4 layers with distinct names, key/value tables as other encoders write them (duplicate and unused entries, tables before/after/interleaved with the features, defaults written or omitted), values of all seven kinds incl. int vs sint, i64::MIN, magnitudes >= 2^62, u64::MAX, infinities, -0.0, features with/without id (0, 2^63, 2^64-1), geometry types 0-3, opaque geometry words, extents and versions present/absent; plus fixed tiles whose layer has 66 000 distinct keys or 70 000 distinct values, and fixed tiles with one NaN among 21-200 distinct floats of equal use count; never the same key twice in one feature, NaN only as the quiet NaN of its kind, never +0.0 and -0.0 of one float kind in one case. Phase roundtrip: VectorTile::from_blob -> to_blob, input and output decoded by the harness decoder must agree in layer order, extent, version and per feature id/type/geometry words/property map (tags resolved by table index as written; tables themselves are not compared). Phase update: 1-4 such tiles (>= 1 layer) in an in-memory source (none/gzip/brotli really applied) | vectortiles_update_properties with a generated CSV (unique canonical id cells from {0..6,-1,-2,a-d,'x y',1.5,-2.25,true,0.1,2.3,-3.14159}; the tile side also as the f32 whose shortest text is the cell; other cells empty/bool/uint/int/double/strings incl. quotes, commas, newlines; quoting, CRLF, final newline varied), every combination of replace_properties/remove_non_matching/include_id written or omitted, layer present/absent, id field present/absent per feature; a feature matches the row whose id cell's canonical text equals the canonical text of the feature's id value (decimal integers, shortest float text, the string, true/false). Oracle on lookups and on the bbox stream (decoded with the declared compression): other layers equal; in the named layer extent/version kept, retained features keep id, type, geometry words and order, removed = exactly the features with an id value without row iff remove_non_matching, properties = row (without the id column unless include_id) when replacing, old + row (row wins) when merging, unchanged otherwise. Non-trivial (update) = a tile with >= 2 layers and >= 1 matched and >= 1 unmatched feature in the named layer; (roundtrip) = a layer with features whose tables hold duplicate or unused entries. Distinct = distinct case value.",
 	);
 	check.assume("harness MVT codec (self-checked on every case: decode(encode(t)) == t); flate2/brotli as reference decompressors; typing of CSV cells modelled from the documented rule (digit strings within 64 bits only); Rust's float Display as the canonical float text");
 	vt::engine::watchdog(3600);
